@@ -9,7 +9,7 @@ from ..defuse import def_value, defs_of, reaching_defs
 from ..esp import UNKNOWN, run_function
 from ..model import Func, Repo, body_nodes, norm, short
 from .C18 import replace_pair
-from .emit import Site, emission_sites, flag_values
+from .emit import Site, cfg_of_node, emission_sites, flag_values
 
 INSERT_KINDS = {"ListInsert", "DictInsert", "CallArg", "AddArgument"}
 
@@ -240,7 +240,7 @@ def flag_label(repo: Repo, rep):
                 continue
             if s.func.qualname.startswith("MinMaxValue."):
                 continue  # R-BOUND-ORDER
-            facts = facts_at(s.cfg, dnode) | (facts_at(s.cfg, s.node) if dnode is not s.node else set())
+            facts = facts_at(cfg_of_node(s, dnode), dnode) | (facts_at(s.cfg, s.node) if dnode is not s.node else set())
             ok, why = judge(label, s.kind, facts, same_value, in_assign)
             if ok is None and not facts:
                 # the site sits in a helper that only builds the change: judge it at the helper's call sites
@@ -286,7 +286,7 @@ def bound_order(repo: Repo, rep):
                 rep.undecided("R-BOUND-ORDER", f"non-constant label ({how})")
                 continue
             seen.add(label)
-            facts = facts_at(cfg, dnode)
+            facts = facts_at(cfg_of_node(s, dnode), dnode)
             need = {"fix": {"CMP_ON_F"}, "trim": {"CMP_ON_T", "CMP_NO_F"}, "update": {"CMP_ON_T", "CMP_NO_T", "TOK_DIFF"}}.get(label)
             if need is None:
                 rep.violation("R-BOUND-ORDER", f, dnode.ast, f"a bound change is labelled `{label}`", construct=f"label:{label}")
